@@ -286,7 +286,8 @@ def _parse_directive_options(
             value = None
         try:
             converted_value = converter(value)
-        except (ValueError, TypeError) as error:
+        except (ValueError, TypeError, AttributeError) as error:
+            # (AttributeError: converters that assume a string, given an empty value, i.e. None)
             validation_errors.append(
                 ParseWarnings(
                     f"Invalid option value for {name!r}: {value}: {error}",
